@@ -30,6 +30,11 @@ Table == <<
   Wd(">=", <<"real", "real">>, "computes"), Wd("==", <<"int", "int">>, "computes"), Wd("<>", <<"int", "int">>, "computes"),
   Wd("and", <<"flag", "flag">>, "computes"), Wd("or", <<"flag", "flag">>, "computes"), Wd("xor", <<"flag", "flag">>, "computes"),
   Wd("not", <<"flag">>, "computes"),
+  \* words that consume a condition (nil counts as false)
+  Wd("if 1 else 2 then", <<"flag">>, "computes"), Wd("if 1 else 2 then", <<"nil">>, "computes"),
+  Wd("assert 3", <<"flag">>, "computes"), Wd("assert 3", <<"nil">>, "computes"),
+  Wd("0 swap begin swap 1 + swap dup until drop", <<"flag">>, "computes"),
+  Wd("0 swap begin dup while drop 1 + nil repeat drop", <<"nil">>, "computes"), Wd("0 swap begin dup while drop 1 + nil repeat drop", <<"flag">>, "computes"),
   Wd("band", <<"int", "int">>, "computes"), Wd("bor", <<"int", "int">>, "computes"), Wd("bxor", <<"int", "int">>, "computes"),
   Wd("bnot", <<"int">>, "computes"), Wd("bsl", <<"int", "int">>, "computes"), Wd("bsr", <<"int", "int">>, "computes"),
   Wd("popcnt", <<"int">>, "computes"), Wd(">real", <<"int">>, "computes"), Wd(">int", <<"real">>, "computes"),
